@@ -240,6 +240,7 @@ func init() {
 		"sort.Slice":     sortSlice,
 		"math/bits.Len64": bitsLen64,
 		"strings.Join":    stringsJoin,
+		"errors.Is":       errorsIs,
 		"strings.Fields":  stringsFields,
 	}
 }
@@ -514,4 +515,15 @@ func stringsFields(fv *FuncVer, st *State, ins ssa.Instruction, fn *ssa.Function
 	st.heaps[key] = Store(fv.heap(st, key, hs), r, content)
 	st.assume(fv.sliceBound(c.WLit(0), n))
 	return MkDT(c.SSlice, r, c.WLit(0), n, n)
+}
+
+
+// errors.Is(err, target): an arbitrary verdict, except that a nil error matches nothing
+// (targets are sentinel errors, never nil: modelling assumption).
+func errorsIs(fv *FuncVer, st *State, ins ssa.Instruction, fn *ssa.Function, args []Val, cc *ssa.CallCommon) Val {
+	c := fv.ctx
+	e := fv.term(args[0])
+	r := c.Fresh("errors_is", SBool)
+	st.assume(Implies(r, Not(Eq(e, c.NilIface()))))
+	return r
 }
